@@ -1,4 +1,5 @@
 import RtenVerif.Lemmas.TensorBoundsOverlapM
+import RtenVerif.Lemmas.TensorBoundsSplit
 import RtenVerif.Props.C08
 
 /-!
@@ -203,6 +204,83 @@ example : tryFromData [2, 3] 6 = .ok [(2, 3), (3, 1)] ∧ tryFromData [2, 3] 5 =
     fromSliceWithStrides [(5, 1), (5, 0)] 5 = .ok [(5, 1), (5, 0)] ∧
     fromStorageAndLayout [(5, 1), (5, 0)] 5 true = .error .panic ∧
     fromStorageAndLayout [(5, 1), (5, 0)] 5 false = .ok [(5, 1), (5, 0)] := by decide
+
+/-! ## T2: `split_at_mut` -/
+
+/-- **C06.T2g** (`MutLayout::split`, used by `split_at` / `split_at_mut`).  For every layout,
+axis and split point the code accepts: an element addressed through the left half lies in the
+left half's offset range, an element addressed through the right half lies in the right half's
+range, both lie below the parent's `min_data_len` (hence inside the parent's storage), and —
+when the parent passed the overlap check, as every mutable tensor has — no element can be
+reached through both halves, so the two `&mut` views never alias. -/
+theorem c06_T2_split {dims : List (Nat × Nat)} {axis mid : Nat} {l r : View}
+    (h : split dims axis mid = some (l, r)) :
+    (∀ i, ValidIdx l.dims i →
+      l.start + offset l.dims i < l.stop ∧ l.start + offset l.dims i < minDataLen dims) ∧
+    (∀ j, ValidIdx r.dims j →
+      r.start ≤ r.start + offset r.dims j ∧ r.start + offset r.dims j < r.stop ∧
+      r.stop ≤ minDataLen dims) ∧
+    (mayOverlap dims = false → ∀ i j, ValidIdx l.dims i → ValidIdx r.dims j →
+      l.start + offset l.dims i ≠ r.start + offset r.dims j) := by
+  unfold split at h
+  split at h
+  · next hc =>
+    obtain ⟨hax, hmid⟩ := hc
+    simp only [Option.some.injEq, Prod.mk.injEq] at h
+    obtain ⟨rfl, rfl⟩ := h
+    have hR : ∀ j, ValidIdx (setSize dims axis (sizeAt dims axis - mid)) j →
+        (if len (setSize dims axis (sizeAt dims axis - mid)) = 0 then
+            (⟨minDataLen dims, minDataLen dims, setSize dims axis (sizeAt dims axis - mid)⟩ : View)
+          else ⟨mid * strideAt dims axis, minDataLen dims,
+            setSize dims axis (sizeAt dims axis - mid)⟩) =
+          ⟨mid * strideAt dims axis, minDataLen dims,
+            setSize dims axis (sizeAt dims axis - mid)⟩ := by
+      intro j hj
+      rw [if_neg (valid_len_pos hj)]
+    refine ⟨?_, ?_, ?_⟩
+    · intro i hi
+      obtain ⟨v, o, _⟩ := embedL dims axis mid i hax hmid hi
+      simp only [Nat.zero_add]
+      refine ⟨c06_T1_offset_lt_min_data_len _ _ hi, ?_⟩
+      rw [← o]
+      exact c06_T1_offset_lt_min_data_len _ _ v
+    · intro j hj
+      have hview := hR j (by
+        have : ValidIdx (setSize dims axis (sizeAt dims axis - mid)) j := by
+          split at hj <;> exact hj
+        exact this)
+      rw [hview] at hj ⊢
+      obtain ⟨v, o, _⟩ := embedR dims axis mid j hax hmid hj
+      refine ⟨Nat.le_add_right _ _, ?_, Nat.le_refl _⟩
+      show mid * strideAt dims axis + offset (setSize dims axis (sizeAt dims axis - mid)) j <
+        minDataLen dims
+      rw [← o]
+      exact c06_T1_offset_lt_min_data_len _ _ v
+    · intro hno i j hi hj
+      have hj' : ValidIdx (setSize dims axis (sizeAt dims axis - mid)) j := by
+        split at hj <;> exact hj
+      rw [hR j hj']
+      obtain ⟨vi, oi, gi⟩ := embedL dims axis mid i hax hmid hi
+      obtain ⟨vj, oj, gj⟩ := embedR dims axis mid j hax hmid hj'
+      simp only [Nat.zero_add]
+      show offset (setSize dims axis mid) i ≠
+        mid * strideAt dims axis + offset (setSize dims axis (sizeAt dims axis - mid)) j
+      rw [← oi, ← oj]
+      intro heq
+      have := c08_no_overlap_injective dims i (addAt j axis mid) hno vi vj heq
+      rw [this] at gi
+      omega
+  · cases h
+
+/-- Non-vacuity: splitting the columns of a 2×3 row-major matrix at 1 gives halves whose
+offset ranges `[0,4)` and `[1,6)` overlap, yet whose element sets `{0,3}` and `{1,2,4,5}`
+are disjoint. -/
+example : split [(2, 3), (3, 1)] 1 1 =
+      some (⟨0, 4, [(2, 3), (1, 1)]⟩, ⟨1, 6, [(2, 3), (2, 1)]⟩) ∧
+    mayOverlap [(2, 3), (3, 1)] = false ∧
+    ValidIdx [(2, 3), (1, 1)] [1, 0] ∧ ValidIdx [(2, 3), (2, 1)] [1, 1] := by
+  refine ⟨by decide, by decide, .cons (by omega) (.cons (by omega) .nil),
+    .cons (by omega) (.cons (by omega) .nil)⟩
 
 /-! ## T3: negation witnesses for the code before the fix -/
 
